@@ -80,6 +80,9 @@ type Item struct {
 	// WrapKey: the key of a v0/v1 wrapper message.  Producers write null (nil) there; the message format allows any key
 	// and no consumer is handed it — the wrapper only carries the inner messages.
 	WrapKey []byte
+	// Transactional: a v2 data batch written by a transactional producer (attributes bit 4).  Committed, it is data like
+	// any other: its records are stored records.  (A control batch has bit 5; the coordinator sets both.)
+	Transactional bool
 }
 
 // stored is the record as the log defines it: under LogAppendTime its timestamp is the batch's append time.
@@ -176,6 +179,9 @@ func encodeV2(it Item) (out []byte, plen int, sizes []int) {
 		pl = compressBytes(it.Codec, pl)
 	}
 	attrs := int16(it.Codec)
+	if it.Transactional {
+		attrs |= 0x10
+	}
 	if it.Control {
 		attrs |= 0x30 // transactional + control
 	}
